@@ -57,6 +57,10 @@ pub fn all256<K: BoolKind>(mr: &MRef<K>, rep: &mut Report, ctx: &serde_json::Val
 }
 
 fn exh3<K: BoolKind>(order: &[u32], threads: u32, depth: Option<u32>, cfg: &Cfg, rep: &mut Report) {
+    // multi-threaded managers hand every operation to the worker pool (tens of
+    // microseconds each): those configurations run on a seeded sample
+    let pair_sample: u64 = if threads > 1 { cfg.t(16, 2) } else { 1 };
+    let ite_extra: u64 = if threads > 1 { cfg.t(32, 4) } else { 1 };
     let ctx = json!({"kind": K::NAME, "order": order, "threads": threads, "split_depth": depth});
     progress(&json!({"sig": format!("C02/{}/crash-setup", K::NAME), "ctx": ctx}).to_string());
     let mr = mk_manager::<K>(3, order, 1 << 14, 1 << 10, threads);
@@ -136,10 +140,15 @@ fn exh3<K: BoolKind>(order: &[u32], threads: u32, depth: Option<u32>, cfg: &Cfg,
     }
 
     // all pairs x all binary operators
+    let mut n_pairs = 0u64;
     for op in BINOPS {
         for a in 0..256usize {
             progress(&json!({"sig": format!("C02/{}/{:?}/crash", K::NAME, op), "ctx": ctx, "op": format!("{op:?}"), "a": a}).to_string());
             for b in 0..256usize {
+                if pair_sample > 1 && mix(cfg.seed ^ ((op as u64) << 20 | (a as u64) << 8 | b as u64)) % pair_sample != 0 {
+                    continue;
+                }
+                n_pairs += 1;
                 let r = apply_op(op, &fns[a], &fns[b]);
                 let exp = op.u8(a as u8, b as u8);
                 rep.evaluations += 1;
@@ -155,7 +164,7 @@ fn exh3<K: BoolKind>(order: &[u32], threads: u32, depth: Option<u32>, cfg: &Cfg,
             }
         }
     }
-    rep.class_n(&format!("{}_pairs", K::NAME), 8 * 65536);
+    rep.class_n(&format!("{}_pairs", K::NAME), n_pairs);
 
     // ite triples
     let full = cfg.thorough;
@@ -165,9 +174,9 @@ fn exh3<K: BoolKind>(order: &[u32], threads: u32, depth: Option<u32>, cfg: &Cfg,
         for b in 0..256usize {
             for c in 0..256usize {
                 let special = a == 0 || a == 255 || b == 0 || b == 255 || c == 0 || c == 255 || a == b || b == c || a == c || a == (!b & 255) || a == (!c & 255) || b == (!c & 255);
-                if !full && !special {
+                if (!full && !special) || ite_extra > 1 {
                     let h = mix(cfg.seed ^ ((a as u64) << 16 | (b as u64) << 8 | c as u64));
-                    if h % 64 != 0 {
+                    if h % (if special { ite_extra } else { 64 * ite_extra }) != 0 {
                         continue;
                     }
                 }
